@@ -10,7 +10,7 @@ from __future__ import annotations
 import ast
 from fractions import Fraction
 
-from ..interp import Interp, Phi, Ref, Tup, vtext
+from ..interp import Interp, Phi, Ref, Tup, vtext, make_flag_decide
 from ..interval import Aff, Facts, IntervalDomain, Iv, MaskV
 from ..program import AnalysisError, Program, unparse, short, walk_no_nested
 from ..report import Report
@@ -45,14 +45,7 @@ def vertical_eval(prog: Program, vertdiff: bool, vertadv: bool, advection: bool 
                 return Iv.point(h)
         return NotImplemented
 
-    def decide(test, fr, it):
-        t = unparse(test)
-        flags = {"self.advection": advection, "self.diffusion": False, "self.vertdiff": vertdiff, "self.vertical_advection": vertadv}
-        if t in flags:
-            return flags[t]
-        if t == "self.vertdiff or self.vertical_advection":
-            return vertdiff or vertadv
-        return None
+    decide = make_flag_decide(dict(advection=advection, diffusion=False, vertdiff=vertdiff, vertical_advection=vertadv))
 
     it = Interp(prog, dom, depth=2, call_hook=hook, decide_hook=decide)
     it.objenv.update({
